@@ -523,8 +523,7 @@ func containsString(path []string, rid string) bool {
 	return false
 }
 
-func (s *Subscription) unsubscribeRefs() {
-	sent := s.IsSent()
+func (s *Subscription) unsubscribeRefs(sent bool) {
 	for _, ref := range s.refs {
 		s.c.Unsubscribe(ref.sub, false, sent, 1, false)
 	}
@@ -848,7 +847,8 @@ func (s *Subscription) Dispose() {
 	}
 
 	if s.resourceSub != nil {
-		s.unsubscribeRefs()
+		// Whether the references were sent is told by the state before disposal
+		s.unsubscribeRefs(state == stateSent)
 		if state != stateDeleted {
 			s.resourceSub.Unsubscribe(s)
 		}
